@@ -170,7 +170,9 @@ def body(node, X, B, E, Y, YB, F, p, hier, classes, L, ind="        "):
         a(f"{ind}def {p}logic():")
         if hier and kk % 3 == 0:
             # the instance is created directly in the context, with an EXPRESSION as the actual of its input
-            a(f"{ind}    Inc(x=({X} + {kk}), y={p}ly)")
+            # (the whole result, a slice of a wider result or a typed view of the result)
+            act = {3: f"({X}.resize(5) + {kk})[3:0]", 9: f"({X} + {kk}).bitvector.unsigned"}.get(kk, f"({X} + {kk})")
+            a(f"{ind}    Inc(x={act}, y={p}ly)")
         elif hier:
             a(f"{ind}    {p}ly.next = inc_inst({X}{' + ' + str(kk) if kk % 2 else ''})")
         else:
